@@ -45,6 +45,10 @@ PROGRAMS = [
    'Tot() = Sum{y :- E(x, y)};\nP3(x, Tot()) :- T(x, s);', ['P', 'P2', 'P3']),
   ('constant_columns', 'K("cat", x) :- T(x, s);\nP(x) :- K("dog", x);\nP2(x, 1, "a") :- K("cat", x);', ['P', 'P2']),
   ('paren_groups', 'P(x) :- (T(x, s), E(x, y)), x > 0;\nP2(x) :- (T(x, s), (E(x, 1) | x == 1)), x < 3;', ['P', 'P2']),
+  # rules whose only constraints are type hints; an empty list that reaches an output column
+  ('type_hint_only', 'P(x, s) :- T(x, s), x ~ Num;\nC(s, n? += 1) distinct :- T(x, s), x ~ Num;\n'
+                     'H(x) :- T(x, s), s ~ Str, x ~ Num;', ['P', 'C', 'H']),
+  ('empty_list_output', 'Q(x, l) :- x = 1, l = [];\nK(x, l) :- x = 1, l = [], l ~ [Num];\nF2(1, []);', ['Q', 'K', 'F2']),
   ('double_negation', 'P(x) :- T(x, s), ~(~E(x, y));\nP2(x) :- T(x, s), ~(T(x, s), ~E(x, 1));', ['P', 'P2']),
 ]
 
